@@ -106,6 +106,9 @@ type Program struct {
 	InitsPartial []string
 	initSkipped  map[*ssa.Package]bool
 
+	reflectPackage *ssa.Package
+	rtypeMethods   map[string]*ssa.Function
+
 	knownFindings map[string]string // id -> status
 	assertQueries int64
 	Verbose       bool
@@ -136,7 +139,30 @@ func NewProgram(prog *ssa.Program) *Program {
 			p.fmtWrapError = t.Object().Type().(*types.Named)
 		}
 	}
+	p.initReflect()
 	return p
+}
+
+// SetEmbed pre-loads a //go:embed variable (string or []byte).
+func (p *Program) SetEmbed(pkgPath, name string, data []byte) {
+	for _, pkg := range p.prog.AllPackages() {
+		if pkg.Pkg.Path() != pkgPath {
+			continue
+		}
+		g, ok := pkg.Members[name].(*ssa.Global)
+		if !ok {
+			return
+		}
+		c := p.snapCell(g)
+		switch t := mustDeref(g.Type()).Underlying().(type) {
+		case *types.Basic:
+			if t.Info()&types.IsString != 0 {
+				*c = string(data)
+			}
+		case *types.Slice:
+			*c = valuesOfBytes(data)
+		}
+	}
 }
 
 // funcPkgPath returns the import path of the package a function belongs to
@@ -194,9 +220,7 @@ func (p *Program) isNoopIfacePkg(path string) bool { return hasPrefixIn(path, no
 // UNSUPPORTED (unless a native is registered for the function).
 var unsupportedPkgs = []string{
 	"reflect", "unsafe", "syscall", "os", "net", "runtime", "internal/reflectlite",
-	"github.com/ipld/go-ipld-prime/node/bindnode",
 	"github.com/libp2p/go-libp2p",
-	"github.com/polydawn/refmt",
 }
 
 // initAllow: packages whose init functions are executed.
@@ -217,15 +241,15 @@ var initAllowPrefixes = []string{
 	"github.com/google/uuid",
 	"github.com/libp2p/go-msgio",
 	"github.com/libp2p/go-buffer-pool",
+	"github.com/polydawn/refmt/shared",
+	"github.com/polydawn/refmt/cbor",
+	"github.com/polydawn/refmt/tok",
 }
 
 var initDenyPrefixes = []string{
-	"github.com/ipld/go-ipld-prime/schema",
-	"github.com/ipld/go-ipld-prime/node/bindnode",
 	"github.com/ipld/go-ipld-prime/codec/dagjson",
 	"github.com/ipld/go-ipld-prime/codec/json",
 	"github.com/ipld/go-ipld-prime/multicodec",
-	"github.com/ipfs/go-graphsync/message/ipldbind",
 	"github.com/ipfs/go-graphsync/testutil",
 }
 
